@@ -1,4 +1,5 @@
 /* C03 - mutex: mutual exclusion, hand-off to exactly one waiter, no lost wake-up */
+#define H_WITH_DEFERRED_UNLOCK
 #include "common.h"
 #include "fiber_event.h"
 #include "fiber_manager.h"
@@ -65,6 +66,10 @@ static void* fib(void* p) {
   return NULL;
 }
 void h_run(void) {
+  if (wl_pct(15)) { /* the unlock that fiber_cond_wait defers to the next fiber of the thread */
+    h_deferred_unlock_scenario("C03-state-at-rest");
+    return;
+  }
   sim_cfg_t c = sim_config(1, 4, 0, FBIT(F_STALL));
   nfib = wl_int(2, 6);
   nmtx = wl_int(1, 2);
